@@ -27,9 +27,9 @@ type StubMem struct {
 	serial  int
 	period  uint64
 	// Log of what the stub answered, keyed by request address (unique-address workloads).
-	ReadData map[uint64][]byte
-	Arrivals []StubArrival
-	Sent     int
+	ReadData  map[uint64][]byte
+	Arrivals  []StubArrival
+	Sent      int
 	Reordered int
 }
 
